@@ -9,6 +9,7 @@ static values are the same for every reader and are held for their stated durati
 from common import *
 import sched_common as S
 import sched_gen as G
+import c07_multi as M
 from fractions import Fraction as F
 from math import ceil
 import itertools
@@ -565,6 +566,8 @@ def check(run):
     n = 260 if run.tier == "quick" else 3000
     merge_part(run, n)
     static_part(run, 240 if run.tier == "quick" else 3000)
+    # the same static / current-time / globals objects used by tracks of several timelines (one after the other, alternately)
+    M.multi_part(run, 120 if run.tier == "quick" else 1500)
     run.cov["rule"] = ("one case = one run on isobar's Timeline: a joint run of 1-6 tracks on distinct channels (random offsets/durations on a "
                        "common grid so that events coincide, scheduling-order permutations for <= 4 tracks, neighbours that finish / raise in "
                        "tolerant mode / are unscheduled) or the solo run of one of its tracks; non-trivial = joint run of >= 2 tracks with at "
@@ -572,6 +575,8 @@ def check(run):
 
 
 def replay(run, doc):
+    if doc.get("part") == "multi":
+        return M.replay_multi(run, doc)
     if doc.get("part") == "static":
         r = run.impl("static_impl", {"programs": [doc["program"]]})["results"][0]
         bad = static_oracle(doc["program"], r["log"]) if "log" in r else [("driver", r)]
